@@ -271,6 +271,11 @@ macro_rules! register_window {
                 }
             }
             debug!("Shutdown complete for window {}!", $window_iri);
+            #[cfg(kolibrie_verif)]
+            crate::verif::event(format!(
+                "{{\"ev\":\"worker-exit\",\"win\":{}}}",
+                crate::verif::json_string(&$window_iri)
+            ));
         });
     }};
 }
@@ -811,6 +816,15 @@ where
             }
 
             debug!("Coordinator: shutdown complete");
+            #[cfg(kolibrie_verif)]
+            crate::verif::event(format!(
+                "{{\"ev\":\"coordinator-exit\",\"wins\":[{}]}}",
+                window_configs
+                    .iter()
+                    .map(|w| crate::verif::json_string(&w.window_iri))
+                    .collect::<Vec<_>>()
+                    .join(",")
+            ));
         });
     }
 
